@@ -93,7 +93,7 @@ def run(prog, rep, tier):
     updates = [b for b in body.calls() if b.term.cmethod == 'update' and (b.term.ctrait.endswith('Digest') or 'Digest' in b.term.cdef)]
     appends = [b for b in body.calls() if cnorm(b.term) == 'ArchiveWriter::append_file_content']
     rep.floor('R02.2.update', len(updates), 1, 'running-hash updates')
-    rep.floor('R02.2.append', len(appends), 2, 'append_file_content calls in the content loop')
+    rep.floor('R02.2.append', len(appends), 1, 'append_file_content calls in the content loop')
 
     def slice_id(op):
         """(buffer local, range-end canonical) of a slice operand built by index(buf, ..end)"""
